@@ -138,6 +138,23 @@ def eac3Fields (a : Args) : Spec.Ac3.Eac3 :=
     convsync := a.nat "convsync", blkid := a.nat "blkid", frmsizecod := a.nat "fsc", addbsi := optBytesArg a "addbsi",
     payload := a.bytes "payload" }
 
+def elemsOf (s : String) : List Spec.Aac.Elem := (natList s).map fun v => { isCpe := v / 16, tag := v % 16 }
+
+def pceOf (a : Args) (sfx : String) : Spec.Aac.Pce :=
+  { tag := a.nat ("ptag" ++ sfx), objectType := a.nat ("pot" ++ sfx), sfIndex := a.nat ("psfi" ++ sfx),
+    front := elemsOf (a.str ("pfront" ++ sfx)), side := elemsOf (a.str ("pside" ++ sfx)), back := elemsOf (a.str ("pback" ++ sfx)),
+    lfe := natList (a.str ("plfe" ++ sfx)), assoc := natList (a.str ("passoc" ++ sfx)),
+    cc := (natList (a.str ("pcc" ++ sfx))).map fun v => (v / 16, v % 16),
+    monoMixdown := optArg a ("pmono" ++ sfx), stereoMixdown := optArg a ("pstereo" ++ sfx), matrixMixdown := optArg a ("pmatrix" ++ sfx),
+    comment := a.bytes ("pcomment" ++ sfx) }
+
+def adifFields (a : Args) : Spec.Aac.Adif :=
+  let pces := (List.range (a.nat "n")).map fun i => (a.nat s!"full{i}", pceOf a (toString i))
+  let dflt : Nat × Spec.Aac.Pce := (0, pceOf a "0")
+  { copyrightId := (if a.str "cid" "none" == "none" then none else some (Mutagen.ofBE (a.bytes "cid"))),
+    originalCopy := a.nat "oc", home := a.nat "home", bitstreamType := a.nat "bt", bitrate := a.nat "bitrate",
+    firstFullness := (pces.headD dflt).1, first := (pces.headD dflt).2, more := pces.tail, payload := a.bytes "payload" }
+
 def infoAParse (kind : String) (data : Bytes) (a : Args) : String :=
   match kind with
   | "WavPack" =>
@@ -205,6 +222,13 @@ def infoABuild (kind : String) (a : Args) : String :=
   | "EAC3" =>
     let h := eac3Fields a
     s!"ok v={hexField h.build} valid={if decide h.OK then 1 else 0}"
+  | "ADIF" =>
+    let h := adifFields a
+    s!"ok v={hexField h.build} valid={if decide h.OK then 1 else 0}"
+  | "PCE" =>
+    let p := pceOf a "0"
+    let pos := a.nat "pos"
+    s!"ok v={hexField (Mutagen.bitsToBytes (List.replicate pos false ++ p.bits pos))} valid={if decide p.OK then 1 else 0}"
   | _ => "bad-op"
 
 def infoAOp (a : Args) : String :=
